@@ -700,15 +700,16 @@ mod tests {
         assert_eq!(crc32(b"123456789"), 0xCBF4_3926); // the standard check value
     }
 
-    #[test]
-    fn every_pair_size_filter_interlace_roundtrips_through_the_png_crate() {
+    /// Every (pair of this colour type) × size × interlace × filter choice × pattern × tRNS:
+    /// the `png` crate must return the packed scanlines and the expanded RGBA asked for.
+    fn roundtrip_colour_type(only_ct: u8) -> usize {
         let sizes = [(1, 1), (1, 2), (3, 1), (7, 3), (9, 2), (8, 8), (17, 5), (33, 9)];
         let filters = [
             RowFilter::Fixed(0), RowFilter::Fixed(1), RowFilter::Fixed(2), RowFilter::Fixed(3), RowFilter::Fixed(4),
             RowFilter::Cycle(1), RowFilter::MinSum,
         ];
         let mut n = 0;
-        for &(ct, d) in &VALID_PAIRS {
+        for &(ct, d) in VALID_PAIRS.iter().filter(|p| p.0 == only_ct) {
             for &(w, h) in &sizes {
                 for interlace in [false, true] {
                     for f in &filters {
@@ -738,7 +739,27 @@ mod tests {
                 }
             }
         }
-        assert!(n > 8000, "{n}");
+        n
+    }
+    #[test]
+    fn roundtrip_grey() {
+        assert_eq!(roundtrip_colour_type(0), 5 * 8 * 2 * 7 * 3 * 2);
+    }
+    #[test]
+    fn roundtrip_rgb() {
+        assert_eq!(roundtrip_colour_type(2), 2 * 8 * 2 * 7 * 3 * 2);
+    }
+    #[test]
+    fn roundtrip_palette() {
+        assert_eq!(roundtrip_colour_type(3), 4 * 8 * 2 * 7 * 3 * 2);
+    }
+    #[test]
+    fn roundtrip_grey_alpha() {
+        assert_eq!(roundtrip_colour_type(4), 2 * 8 * 2 * 7 * 3);
+    }
+    #[test]
+    fn roundtrip_rgb_alpha() {
+        assert_eq!(roundtrip_colour_type(6), 2 * 8 * 2 * 7 * 3);
     }
 
     #[test]
